@@ -127,9 +127,11 @@ func (p *parser) endsInANumber(u *Url, input string) bool {
 
 func (p *parser) parseIPv4Number(u *Url, input string) (number int64, validationError bool, err error) {
 	if input == "" {
-		if err = p.handleError(u, errors.IPv4EmptyPart, true); err != nil {
-			return
-		}
+		// An empty string is not a number. That is a failure of this sub-parser only: the caller
+		// decides what it means (the ends-in-a-number check merely answers "no"), so nothing is
+		// recorded as a validation error here.
+		err = errors.Error(errors.IPv4EmptyPart, u.inputUrl, true)
+		return
 	}
 	R := 10
 	if len(input) >= 2 && (strings.HasPrefix(input, "0x") || strings.HasPrefix(input, "0X")) {
